@@ -442,7 +442,10 @@ fn lex_block_comment(l: &mut Lexer<'_>, index: usize) -> Option<CommentedTokenTr
     let mut unclosed_indices = vec![index];
 
     let unclosed_multiline_comment = |l: &Lexer<'_>, unclosed_indices: Vec<_>| {
-        let span = span(l, *unclosed_indices.last().unwrap(), l.src.text.len() - 1);
+        // The span ends at the start of the last character, which is not
+        // necessarily `len - 1` if that character is a multi-byte one.
+        let end = l.src.text.char_indices().last().map_or(0, |(ix, _)| ix);
+        let span = span(l, *unclosed_indices.last().unwrap(), end);
         let kind = LexErrorKind::UnclosedMultilineComment { unclosed_indices };
         error(l.handler, LexError { kind, span });
         None
